@@ -26,7 +26,12 @@ export function decode(t) {
     case "ta": return new globalThis[t.c](t.c.startsWith("Big") ? t.es.map((x) => BigInt(x)) : t.es);
     case "map": return new Map(t.es.map((e) => [decode(e.mk), decode(e.mv)]));
     case "set": return new Set(t.es.map(decode));
-    case "arr": return t.es.map(decode);
+    case "arr": {
+      // {k: "hole"}: an index that is not there (sparse array)
+      const a = new Array(t.es.length);
+      t.es.forEach((e, i) => { if (e.k !== "hole") a[i] = decode(e); });
+      return a;
+    }
     case "obj": {
       // "inh": every property is inherited from a (marked) prototype object, the object itself has no own property
       const holder = t.c === "null" ? Object.create(null) : t.c === "inst" ? new (class Inst {})() : {};
@@ -66,7 +71,7 @@ export function encode(v, depth = 0) {
     return { k: "ta", c: v.constructor.name, es: Array.from(v, (x) => (typeof x === "bigint" ? Number(x) : x)) };
   if (v instanceof Map) return { k: "map", es: [...v].map(([a, b]) => ({ mk: encode(a, depth + 1), mv: encode(b, depth + 1) })) };
   if (v instanceof Set) return { k: "set", es: [...v].map((x) => encode(x, depth + 1)) };
-  if (Array.isArray(v)) return { k: "arr", es: Array.from(v, (x) => encode(x, depth + 1)) };
+  if (Array.isArray(v)) return { k: "arr", es: Array.from({ length: v.length }, (_, i) => (i in v ? encode(v[i], depth + 1) : { k: "hole" })) };
   if (v instanceof RegExp) return { k: "other", d: "regexp" };
   const proto = Object.getPrototypeOf(v);
   if (proto !== null && proto[INH] === true && Object.getPrototypeOf(proto) === Object.prototype) {
